@@ -25,6 +25,9 @@ Record ast := mkA { a_st : st; a_freed : list Z; a_cur : option Z (* the timer w
 
 Definition is_freed (a : ast) (w : watch) : bool := existsb (Z.eqb (w_id w)) (a_freed a).
 
+(* the pinned-code model has no unbind-notification scripts *)
+Definition no_uenv (cb : Z) : list action := [].
+
 Section WithEnv.
 Variable io_mask_bug : bool.
 Variable env : Z -> list action.
@@ -63,16 +66,16 @@ Definition a_cancel (a : ast) (id : Z) : option ast :=
   let s := a_st a in
   (* not live any more (has run, or is the one running): the program does not cancel it *)
   if existsb (Z.eqb id) (a_freed a) || match a_cur a with Some c => c =? id | None => false end then Some a else
-  match find_remove id (ios s) with Some (w, l) => Some (lift a (notify_unbind (set_ios s l) w)) | None =>
-  match find_remove id (laters s) with Some (w, l) => Some (lift a (notify_unbind (set_laters s l) w)) | None =>
-  match find_remove id (sigs s) with Some (w, l) => Some (lift a (notify_unbind (set_sigs s l) w)) | None =>
-  match find_remove id (procs s) with Some (w, l) => Some (lift a (notify_unbind (set_procs s l) w)) | None =>
+  match find_remove id (ios s) with Some (w, l) => Some (lift a (notify_unbind io_mask_bug no_uenv (set_ios s l) w)) | None =>
+  match find_remove id (laters s) with Some (w, l) => Some (lift a (notify_unbind io_mask_bug no_uenv (set_laters s l) w)) | None =>
+  match find_remove id (sigs s) with Some (w, l) => Some (lift a (notify_unbind io_mask_bug no_uenv (set_sigs s l) w)) | None =>
+  match find_remove id (procs s) with Some (w, l) => Some (lift a (notify_unbind io_mask_bug no_uenv (set_procs s l) w)) | None =>
   match find_remove id (run_laters s) with Some _ => Some a | None =>
   (* a timer (or nothing at all): walk the chain from t->timers *)
   if existsb (fun w => w_id w =? id) (timers s) then
     match a_find_remove (a_freed a) id (timers s) with
     | None => None
-    | Some (Some (w, l)) => Some (lift a (notify_unbind (set_timers s l) w))
+    | Some (Some (w, l)) => Some (lift a (notify_unbind io_mask_bug no_uenv (set_timers s l) w))
     | Some None => Some a
     end
   else Some a
@@ -91,7 +94,7 @@ Definition a_do_action (oa : option ast) (x : action) : option ast :=
           | Some l => Some (lift a (set_next (set_timers s l) (next_id s + 1)))
           end
       | ACancel id => a_cancel a id
-      | _ => Some (lift a (do_action io_mask_bug s x))
+      | _ => Some (lift a (do_action io_mask_bug no_uenv s x))
       end
   end.
 
